@@ -8,7 +8,19 @@ use crate::world::{BlockOpts, DiffMode, World};
 use ic_btc_canister as can;
 use ic_btc_interface::Network;
 
+/// An interleaved page walk (C06): pages of one request are fetched with other messages in between.
+pub struct Walk {
+    pub addr: String,
+    pub limit: usize,
+    pub next: Option<Vec<u8>>,
+    pub tip: (u32, Vec<u8>),
+    pub collected: Vec<(u32, Vec<u8>, u32, u64)>,
+    pub same_tip: bool,
+    pub pages: u32,
+}
+
 pub struct Case {
+    pub walk: Option<Walk>,
     pub world: World,
     pub alive: Vec<usize>,
     pub network: Network,
@@ -161,12 +173,59 @@ pub fn queries(out: &mut Out, rng: &mut Rng, case: &Case, heavy: bool) {
     }
 }
 
+/// Starts or continues the interleaved page walk.
+pub fn walk_step(out: &mut Out, rng: &mut Rng, case: &mut Case) {
+    let net = case.network;
+    match case.walk.take() {
+        None => {
+            let addrs = case.world.addresses();
+            let addr = rng.pick(&addrs).clone();
+            let limit = *rng.pick(&[1usize, 1, 2, 3]);
+            let r = c::get_utxos(&addr, net, &c::Filter::None, Some(limit));
+            out.emit(&format!("c walk start {} {}", addr, limit), &c::utxos_text(&r));
+            if let c::QRes::Ok(o) = r {
+                if o.next_page.is_some() {
+                    out.count("walk:started");
+                    case.walk = Some(Walk { addr, limit, next: o.next_page.clone(), tip: (o.tip_height, o.tip_hash.clone()), collected: o.utxos.clone(), same_tip: true, pages: 1 });
+                } else {
+                    // single page: finished at once
+                    out.emit("c walk done", &format!("{} {} sametip=1", o.tip_height, c::canonical_set_text(&o.utxos)));
+                }
+            }
+        }
+        Some(mut w) => {
+            let tok = w.next.clone().unwrap();
+            let r = c::get_utxos(&w.addr, net, &c::Filter::Page(tok), Some(w.limit));
+            out.emit("c walk next", &c::utxos_text(&r));
+            match r {
+                c::QRes::Ok(o) => {
+                    w.same_tip &= (o.tip_height, o.tip_hash.clone()) == w.tip;
+                    w.collected.extend(o.utxos.iter().cloned());
+                    w.pages += 1;
+                    w.next = o.next_page.clone();
+                    if w.next.is_none() {
+                        out.count("walk:finished");
+                        out.count_n("walk:pages", w.pages as u64);
+                        out.emit("c walk done", &format!("{} {} sametip={}", w.tip.0, c::canonical_set_text(&w.collected), w.same_tip as u8));
+                    } else {
+                        case.walk = Some(w);
+                    }
+                }
+                _ => {
+                    // the tip is gone (explicit error) or a trap: the walk ends
+                    out.count("walk:aborted");
+                }
+            }
+        }
+    }
+}
+
 pub fn run_case(out: &mut Out, rng: &mut Rng, thorough: bool, case_no: u64) {
     let network = *rng.pick(&[Network::Regtest, Network::Regtest, Network::Mainnet, Network::Testnet]);
     let thr = *rng.pick(&[1u32, 1, 2, 2, 3, 4, 6, 144]);
     let mode = *rng.pick(&[DiffMode::Equal, DiffMode::Small, DiffMode::HeavyLight, DiffMode::Ties]);
     let world = World::new(network, rng);
-    let mut case = Case { world, alive: vec![0], network, thr, mode };
+    let mut case = Case { walk: None, world, alive: vec![0], network, thr, mode };
     c::fresh_init(network, thr as u128, None);
     out.begin_case(&format!("ledger net={} thr={} mode={}", c::net_name(network), thr, mode as u8));
     out.emit(
@@ -245,6 +304,11 @@ pub fn run_case(out: &mut Out, rng: &mut Rng, thorough: bool, case_no: u64) {
         }
         if rng.chance(1, 4) {
             queries(out, rng, &case, false);
+        }
+        if case.walk.is_some() || rng.chance(1, 5) {
+            if rng.chance(2, 3) {
+                walk_step(out, rng, &mut case);
+            }
         }
     }
     queries(out, rng, &case, true);
